@@ -1,0 +1,11 @@
+//go:build verif
+
+package transforms
+
+// Exports of the unexported float64 kernels for the runtime-monitoring harness in /verif.
+
+// VerifDCT64 runs the float64 64-point kernel in place.
+func VerifDCT64(input []float64) { forwardDCT64(input) }
+
+// VerifDCT256 runs the float64 256-point kernel in place.
+func VerifDCT256(input []float64) { forwardDCT256(input) }
